@@ -164,7 +164,10 @@ func concurrentMemoryStore(r *Run) {
 		}
 		wg.Wait()
 		// Wing-Gong: state = (exists, tok, auth) rendered as strings
-		type st struct{ exists bool; tok, auth string }
+		type st struct {
+			exists    bool
+			tok, auth string
+		}
 		apply := func(s st, e ev) (st, bool) {
 			switch e.op.Kind {
 			case "settok":
